@@ -778,7 +778,7 @@ def classify(ctx, spec, infos, impl):
 
 
 def run(ctx):
-    ctx.build(FILES)
+    ctx.build_with_translator(FILES)
     ctx.cov['rule'] = (
         'random images 1..10 px a side on the 1/8 lattice (integers, dyadics, ramps, sparse, blobs, outliers, '
         'NaN/inf) x six pixel aperture classes and their sky forms through a TAN WCS x 1..4 positions '
